@@ -383,6 +383,8 @@ class RestAPI(object):
                     return aws_error("StateMachineAlreadyExists"), 400
 
                 definition = params.get("definition", "")
+                if not isinstance(definition, str):
+                    return aws_error("InvalidDefinition"), 400
                 """
                 First check if the definition length has exceeded the 1048576
                 character limit described in the CreateStateMachine API page.
@@ -438,6 +440,8 @@ class RestAPI(object):
                 https://docs.aws.amazon.com/AmazonCloudWatch/latest/logs/iam-access-control-overview-cwl.html
                 """
                 logging_configuration = params.get("loggingConfiguration", {})
+                if not isinstance(logging_configuration, dict):
+                    return aws_error("InvalidLoggingConfiguration"), 400
                 # Explicitly set default to OFF if not present in request.
                 logging_level = logging_configuration.get("level", "OFF")
                 logging_configuration["level"] = logging_level
@@ -672,6 +676,8 @@ class RestAPI(object):
                     state_machine["roleArn"] = role_arn
 
                 definition = params.get("definition", "")
+                if not isinstance(definition, str):
+                    return aws_error("InvalidDefinition"), 400
                 if definition:
                     """
                     First check if the definition length has exceeded the 1048576
@@ -733,6 +739,8 @@ class RestAPI(object):
                 https://docs.aws.amazon.com/AmazonCloudWatch/latest/logs/iam-access-control-overview-cwl.html
                 """
                 logging_configuration = params.get("loggingConfiguration", {})
+                if not isinstance(logging_configuration, dict):
+                    return aws_error("InvalidLoggingConfiguration"), 400
                 if logging_configuration:
                     # Explicitly set default to OFF if not present in request.
                     logging_level = logging_configuration.get("level", "OFF")
@@ -841,6 +849,8 @@ class RestAPI(object):
                     return aws_error("InvalidName"), 400
 
                 input = params.get("input", "{}")
+                if not isinstance(input, str):
+                    return aws_error("InvalidExecutionInput"), 400
                 """
                 First check if the input length has exceeded the 262144 character
                 quota described in Stepfunction Quotas page.
@@ -976,6 +986,8 @@ class RestAPI(object):
                     return aws_error("InvalidName"), 400
 
                 input_as_string = params.get("input", "{}")
+                if not isinstance(input_as_string, str):
+                    return aws_error("InvalidExecutionInput"), 400
                 """
                 First check if the input length has exceeded the 262144 character
                 quota described in Stepfunction Quotas page.
